@@ -27,7 +27,7 @@ FEATS = ['ns=1;val=0;scanner=IG', 'ns=1;val=1;scanner=IG', 'ns=1;val=2;schema=1;
 
 @st.composite
 def gen_case(draw):
-    src = draw(st.sampled_from(['m1', 'm1', 'm1mut', 'c15', 'c15']))
+    src = draw(st.sampled_from(['m1', 'm1', 'm1mut', 'm1ent', 'c15', 'c15']))
     files = {}
     if src == 'c15':
         data = draw(C15.gen_doc())
@@ -38,6 +38,11 @@ def gen_case(draw):
         text, fs = xm.render(d)
         if src == 'm1mut':
             m = wfmut.mutate(text, d, draw(st.sampled_from(wfmut.OPS_ANY)), draw(st.integers(0, 999)))
+            if m is not None: text = m
+        elif src == 'm1ent':
+            # error paths of the entity / reader machinery (readers and entity declarations created and then refused): weighted up, they are rare in OPS_ANY
+            m = wfmut.mutate(text, d, draw(st.sampled_from(['recursive-entity', 'recursive-entity-indirect', 'ext-entity-in-attr', 'unparsed-entity-in-content', 'entity-unbalanced',
+                                                              'lt-via-entity-in-attr', 'pe-in-decl-internal', 'amp-in-entity-value', 'undeclared-entity', 'nested-doctype'])), draw(st.integers(0, 999)))
             if m is not None: text = m
         data = xm.encode_doc(text, draw(st.sampled_from(['utf-8', 'utf-8', 'utf-16le-bom'])))
         files = {k: v.replace('@ENC@', 'UTF-8').encode('utf-8') for k, v in fs.items()}
